@@ -94,11 +94,23 @@ def load_property(pid):
 
 
 def known_findings(pid):
-    path = os.path.join(VERIF, "known_findings.json")
-    if not os.path.exists(path):
-        return []
-    with open(path) as f:
-        return [k for k in json.load(f)["findings"] if k["property"] == pid and k.get("kind") == "known"]
+    """known_findings.json (committed union) plus known_findings.d/*.json (per-family source files);
+    entries: {property, id, kind: known|fixed, what, match: regex on signature+detail+case,
+    optional model_match}.  Never written at run time."""
+    paths = [os.path.join(VERIF, "known_findings.json")]
+    d = os.path.join(VERIF, "known_findings.d")
+    if os.path.isdir(d):
+        paths += [os.path.join(d, n) for n in sorted(os.listdir(d)) if n.endswith(".json")]
+    out, seen = [], set()
+    for path in paths:
+        if not os.path.exists(path):
+            continue
+        with open(path) as f:
+            for k in json.load(f)["findings"]:
+                if k["property"] == pid and k.get("kind") == "known" and k["id"] not in seen:
+                    seen.add(k["id"])
+                    out.append(k)
+    return out
 
 
 # ---------------------------------------------------------------------------------------------
